@@ -62,13 +62,10 @@ def parse_inline_params(s, preserve_order=True):
             re.findall(REGEX_VALUE_IN_QUOTES, v) or re.findall(REGEX_VALUE_IN_APOSTROPHES, v)
         )
 
-        # Remove leading and trailing double quotes.
-        v = re.sub('^"', "", v)
-        v = re.sub('"$', "", v)
-
-        # Remove leading and trailing single quotes.
-        v = re.sub("^'", "", v)
-        v = re.sub("'$", "", v)
+        # Remove the pair of double quotes or single quotes that encloses the value. A quote
+        # of the other kind at the start or at the end of the string is part of the string.
+        if len(v) >= 2 and v[0] == v[-1] and v[0] in ['"', "'"]:
+            v = v[1:-1]
 
         quotes_in_string = False
         if v != "":
